@@ -140,6 +140,11 @@ func scenario(p params, bounds []int) *vexp.Scenario {
 			mkSender := func(w *vsys.World, name string, target vivid.ActorRef) {
 				w.SpawnRoot(&vsys.Script{Name: name, OnMsg: func(a *vsys.Act, ctx vivid.ActorContext, m vsys.Msg) {
 					switch {
+					case m.ID == "warm":
+						seq[name]++
+						id := fmt.Sprintf("%s.%d", name, seq[name])
+						sent[name] = append(sent[name], id)
+						ctx.Tell(target, msg(id, p.size))
 					case m.ID == "go":
 						for i := 1; i <= p.n; i++ {
 							seq[name]++
@@ -163,7 +168,7 @@ func scenario(p params, bounds []int) *vexp.Scenario {
 							if p.kind == "around-undecodable" && i == 2 {
 								ctx.Tell(target, &vcodec.UnreadableMsg{N: 9}) // encodes fine, the other side's reader rejects it
 							}
-							if p.kind == "after-rejected" && i == 1 {
+							if (p.kind == "after-rejected" && i == 1) || ((p.kind == "rejected-amid" || p.kind == "rejected-in-flight") && i == p.n) {
 								ctx.Tell(target, &vcodec.PadTagMsg{Pad: bytes.Repeat([]byte{5}, 70000), Tag: strings.Repeat("t", 300)})
 							}
 							if p.kind == "bytes-burst" {
@@ -221,8 +226,21 @@ func scenario(p params, bounds []int) *vexp.Scenario {
 				}
 				vrt.QuiesceNoTimers()
 				wa.Sys.Tell(wa.Ref("/s1"), vsys.Msg{ID: "go"})
-			case "burst", "bytes-burst", "at-limit", "after-rejected", "around-undecodable":
+			case "burst", "bytes-burst", "at-limit", "after-rejected", "rejected-amid", "around-undecodable":
 				wa.Sys.Tell(wa.Ref("/s1"), vsys.Msg{ID: "go"})
+			case "rejected-in-flight":
+				// network latency: after a first message has arrived, what A writes on that connection stays in flight until the
+				// harness lets it arrive. In the meantime A sends n-1 valid messages, one that its own encoder rejects, and one more.
+				wa.Sys.Tell(wa.Ref("/s1"), vsys.Msg{ID: "warm"})
+				vrt.QuiesceNoTimers()
+				stall := true
+				first := len(nw.Conns)
+				nw.Stalled = func(c *vnet.VConn) bool { return stall && c.ID < first && !c.Client }
+				wa.Sys.Tell(wa.Ref("/s1"), vsys.Msg{ID: "go"})
+				vrt.SetHorizon(vrt.Now() + int64(time.Minute))
+				vrt.Quiesce()
+				vrt.SetHorizon(0)
+				stall = false
 			case "two-senders", "first-contact":
 				wa.Sys.Tell(wa.Ref("/s1"), vsys.Msg{ID: "go"})
 				wa.Sys.Tell(wa.Ref("/s2"), vsys.Msg{ID: "go"})
@@ -324,7 +342,7 @@ func scenario(p params, bounds []int) *vexp.Scenario {
 					if pb.Type == "RemotingMessageDecodeFailedEvent" && p.kind == "around-undecodable" {
 						continue // the one message that cannot be decoded
 					}
-					if pb.Type == "RemotingMessageDecodeFailedEvent" && !(p.kind == "after-rejected" && strings.Contains(fmt.Sprintf("%+v", pb.Event), "PadTagMsg")) {
+					if pb.Type == "RemotingMessageDecodeFailedEvent" && !((p.kind == "after-rejected" || p.kind == "rejected-amid" || p.kind == "rejected-in-flight") && strings.Contains(fmt.Sprintf("%+v", pb.Event), "PadTagMsg")) {
 						x.Fail("no-decode-failure", "a frame failed to decode on a healthy link: %v", pb.Event)
 					}
 				}
@@ -373,6 +391,13 @@ func build(tier string) []*vexp.Scenario {
 	}
 	for _, n := range []int{1, 3} {
 		out = append(out, scenario(params{"after-rejected", n, 10, "all"}, b0))
+		if n >= 2 {
+			// the rejected message comes after n-1 valid ones that may still be in flight, and before the last one: whatever the
+			// sender does about the failed encode, what was sent before it still arrives before what is sent after it
+			out = append(out, scenario(params{"rejected-amid", n, 10, "all"}, b1))
+			out = append(out, scenario(params{"rejected-amid", n, 4000, "all"}, b1))
+			out = append(out, scenario(params{"rejected-in-flight", n, 10, "all"}, b1))
+		}
 	}
 	out = append(out, scenario(params{"concurrent-asks", 1, 10, "all"}, b1))
 	out = append(out, scenario(params{"concurrent-asks", 2, 10, "all"}, b0))
